@@ -26,7 +26,11 @@ DefaultOpts == [lsb0 |-> FALSE, ba |-> FALSE, mx |-> "saturate"]
 
 \* ev.post is a JSON object: a record (possibly empty)
 PostIds(ev) == DOMAIN ev.post
-ObsRec(r) == [c |-> r.c, v |-> r.v, p |-> r.p]
+\* Array objects carry their dtype (name, length in units) next to the data bits
+ObsRec(r) == IF "dn" \in DOMAIN r THEN [c |-> r.c, v |-> r.v, p |-> r.p, dn |-> r.dn, dl |-> r.dl]
+             ELSE [c |-> r.c, v |-> r.v, p |-> r.p]
+IsNewObjVal(val) == IsVObj(val) \/ (Len(val) >= 4 /\ val[1] = 15)
+Frozen(c) == c \in {"Bits", "ConstBitStream"}
 
 \* state of the world as observed after the event
 ObsObjs(o, ev) ==
@@ -34,7 +38,7 @@ ObsObjs(o, ev) ==
 
 \* ids of objects returned fresh by this call, with their expected records
 FreshIdx(exp, ev) ==
-  {i \in 1..Len(exp.vals) : IsVObj(exp.vals[i]) /\ i <= Len(ev.out.alias) /\ ev.out.alias[i] = ""}
+  {i \in 1..Len(exp.vals) : IsNewObjVal(exp.vals[i]) /\ i <= Len(ev.out.alias) /\ ev.out.alias[i] = ""}
 
 ExcOK(exp, ev) ==
   \/ \E c \in exp.exc : c \in ToSet(ev.out.exc)
@@ -53,10 +57,10 @@ ValOK(exp, ev, i) ==
 \* a result that must be a new object may still be an existing *immutable* object
 \* of the right value (immutable objects can be shared freely)
 AliasOK(o, exp, ev, i) ==
-  \/ ~IsVObj(exp.vals[i])
+  \/ ~IsNewObjVal(exp.vals[i])
   \/ exp.alias[i] = "?"
   \/ exp.alias[i] = ev.out.alias[i]
-  \/ exp.alias[i] = "" /\ ev.out.alias[i] \in DOMAIN o /\ ~IsMutable(o[ev.out.alias[i]].c)
+  \/ exp.alias[i] = "" /\ ev.out.alias[i] \in DOMAIN o /\ Frozen(o[ev.out.alias[i]].c)
 
 \* Name of the first clause of the conformance relation that fails, or "ok".
 Clause(o, op, ev) ==
@@ -78,7 +82,7 @@ Clause(o, op, ev) ==
     [] \E id \in PostIds(ev) : ~PosValid(ObsRec(ev.post[id])) -> "pos-invalid"
     [] ev.optsp.lsb0 # OptsAfter(op, ev).lsb0 \/ ev.optsp.ba # OptsAfter(op, ev).ba
          \/ ev.optsp.mx # OptsAfter(op, ev).mx -> "options-after"
-    [] \E id \in DOMAIN o : ~IsMutable(o[id].c) /\ (obs[id].v # o[id].v \/ obs[id].c # o[id].c)
+    [] \E id \in DOMAIN o : Frozen(o[id].c) /\ (obs[id].v # o[id].v \/ obs[id].c # o[id].c)
          -> "immutable-changed"
     [] exp.k = "raise" /\ ~raised -> "expected-raise"
     [] exp.k = "ok" /\ raised -> "unexpected-raise"
@@ -92,6 +96,8 @@ Clause(o, op, ev) ==
     [] "upd" \notin exp.free /\ \E id \in DOMAIN o : ~okObj(id) -> "post-state"
     [] "upd" \notin exp.free /\ "vals" \notin exp.free
          /\ PostIds(ev) \ DOMAIN o # {ev.out.ids[i] : i \in fresh} -> "new-objects"
+    [] exp.arr # <<>> /\ \E i \in fresh : ev.post[ev.out.ids[i]].c # "Array" \/ ev.post[ev.out.ids[i]].dn # exp.arr[1]
+         \/ ev.post[ev.out.ids[i]].dl # exp.arr[2] -> "new-array-dtype"
     [] OTHER -> "ok"
 
 Init == l = 1 /\ objs = NoObjs /\ opts = DefaultOpts /\ tid = -1
